@@ -95,6 +95,20 @@ def t_reader_slice(env, out, serial):
             pck[[0, 1]][1][[True, False, True, True]], pck[[1, 2]][0][:3]]
 
 
+def t_reader_reread(env, out, serial):
+    """the caller edits the arrays it was given in place and asks for the same boxes again: serial (integer selections)
+    and pooled (two-box lists) answers must both be what is on disk"""
+    from amr_kitchen import PlotfileCooker
+    pck = PlotfileCooker(env["p3"])
+    res = []
+    for f, lv in (("temp", 1), (slice(0, 2), 0), ([0, 2], 1)):
+        for b in (0, 2, 1):
+            first = pck[f][lv][b] if serial else pck[f][lv][[b, (b + 1) % 3]][0]
+            first[...] = -1.5e88
+            res.append(pck[f][lv][b] if serial else pck[f][lv][[b, (b + 1) % 3]][0])
+    return res
+
+
 def t_reader_iter(env, out, serial):
     from amr_kitchen import PlotfileCooker
     pck = PlotfileCooker(env["p3"])
@@ -218,7 +232,7 @@ def t_chk2plt(env, out, serial):
 
 
 # name -> (driver, has a serial mode)
-TOOLS = {"reader_slice": (t_reader_slice, True), "reader_iter": (t_reader_iter, False), "taste": (t_taste, False),
+TOOLS = {"reader_slice": (t_reader_slice, True), "reader_reread": (t_reader_reread, True), "reader_iter": (t_reader_iter, False), "taste": (t_taste, False),
          "taste_bad": (t_taste_bad, False), "colander": (t_colander, False), "colander2d": (t_colander2d, False),
          "combine_byfile": (t_combine_byfile, False), "combine_bybox": (t_combine_bybox, False), "chef": (t_chef, True),
          "chef_cantera": (t_chef_cantera, True), "chef_cantera_nan": (t_chef_cantera_nan, True),
@@ -228,7 +242,7 @@ TOOLS = {"reader_slice": (t_reader_slice, True), "reader_iter": (t_reader_iter, 
 
 
 # tools whose input is the 3D plotfile with the variable layout
-P3_TOOLS = ["reader_slice", "reader_iter", "taste", "taste_bad", "colander", "combine_byfile", "combine_bybox", "chef", "mandoline3d",
+P3_TOOLS = ["reader_slice", "reader_reread", "reader_iter", "taste", "taste_bad", "colander", "combine_byfile", "combine_bybox", "chef", "mandoline3d",
             "mandoline3d_plt", "pestle", "whip"]
 
 
@@ -245,7 +259,8 @@ def cases(tier, seed):
 
 
 # ---- two operations in one process with a change of working directory in between (relative paths) -----------------
-CWD_TOOLS = ["reader_slice", "reader_iter", "taste", "colander", "combine_bybox", "chef", "mandoline3d", "mandoline2d", "pestle", "whip", "chk2plt"]
+CWD_TOOLS = ["reader_slice", "reader_iter", "taste", "colander", "colander2d", "combine_bybox", "combine_byfile", "chef", "mandoline3d", "mandoline3d_plt",
+             "mandoline2d", "pestle", "whip", "chk2plt"]
 
 
 def rel_env(env, cwd):
@@ -254,29 +269,36 @@ def rel_env(env, cwd):
 
 def cwd_history_envs(workdir, seed):
     envs = []
-    for name, sd in (("A", seed), ("B", seed + 7)):
+    for name, sd in (("A", seed), ("B", seed + 7), ("C", seed + 13)):
         d = os.path.join(workdir, "cwd" + name)
         os.makedirs(d)
-        # other names in B: a worker that still lives in A's directory must not find B's relative paths there
-        envs.append((d, make_env(d, sd, tag="" if name == "A" else "b")))
+        # other names in B: a worker that still lives in A's directory must not find B's relative paths there;
+        # the SAME names in C as in A, other contents and another box -> file layout: whatever is remembered under a relative
+        # path string (or read by a worker that still lives in A) belongs to A
+        envs.append((d, make_env(d, sd, tag="b" if name == "B" else "", variant=2 if name == "C" else 0)))
     return envs
 
 
 def run_cwd_case(case, workdir, rec):
-    (da, ea), (db, eb) = cwd_history_envs(workdir, case["seed"])
+    (da, ea), (db, eb), (dc, ec) = cwd_history_envs(workdir, case["seed"])
     for tool in CWD_TOOLS:
-        os.chdir(db)
-        ctl, ev, dg, obs = observe(tool, rel_env(eb, db), "out_" + tool, False, {})
-        rec.exe(["cwd_history", tool], nontrivial=True)
-        rec.outcome("cwdhist_%s:%016x" % (tool, dg))
+        fresh = {}
+        for nm, dd, ee in (("B", db, eb), ("C", dc, ec)):
+            os.chdir(dd)
+            ctl, ev, dg, obs = observe(tool, rel_env(ee, dd), "out_" + tool, False, {})
+            rec.exe(["cwd_history", tool, nm], nontrivial=True)
+            rec.outcome("cwdhist%s_%s:%016x" % ("" if nm == "B" else nm, tool, dg))
+            fresh[nm] = (dg, obs)
         # in-process: the same operation after another one elsewhere must give the same observation
         os.chdir(da)
         observe(tool, rel_env(ea, da), "out_" + tool, False, {})
-        os.chdir(db)
-        ctl, ev, dg2, obs2 = observe(tool, rel_env(eb, db), "out_" + tool, False, {})
-        if dg2 != dg:
-            rec.fail("history_dependent", {"tool": tool, "history": "same tool on another directory first, then chdir"},
-                     "%r vs %r" % (obs2, obs))
+        for nm, dd, ee in (("B", db, eb), ("C", dc, ec)):
+            os.chdir(dd)
+            ctl, ev, dg2, obs2 = observe(tool, rel_env(ee, dd), "out_" + tool, False, {})
+            if dg2 != fresh[nm][0]:
+                rec.fail("history_dependent", {"tool": tool, "history": "same tool in another directory first (%s), then chdir"
+                                               % ("same relative names there" if nm == "C" else "other names there")},
+                         "%r vs %r" % (obs2, fresh[nm][1]))
     os.chdir(workdir)
     rec.sample({"history": "chdir(A); tool(relative paths); chdir(B); tool(same relative paths, other content)", "tools": CWD_TOOLS})
 
@@ -556,13 +578,17 @@ def parent_pass(tier, seed, workdir):
     _reset_pathos()
     # (1b) two operations with a change of working directory in between, relative paths, REAL pools
     # (a pool that outlives the first operation keeps its workers' working directory)
-    (da, ea), (db, eb) = cwd_history_envs(workdir, seed)
+    (da, ea), (db, eb), (dc, ec) = cwd_history_envs(workdir, seed)
     for tool in CWD_TOOLS:
         os.chdir(da)
         observe(tool, rel_env(ea, da), "out_" + tool, False, None, controlled=False)
         os.chdir(db)
         ctl, ev, dg, obs = observe(tool, rel_env(eb, db), "out_" + tool, False, None, controlled=False)
         res.append({"outcome": "cwdhist_%s:%016x" % (tool, dg), "what": "%s after the same tool in another working directory (real pools)" % tool,
+                    "obs": repr(obs)[:200]})
+        os.chdir(dc)
+        ctl, ev, dg, obs = observe(tool, rel_env(ec, dc), "out_" + tool, False, None, controlled=False)
+        res.append({"outcome": "cwdhistC_%s:%016x" % (tool, dg), "what": "%s after the same tool in another working directory that holds the same relative names (real pools)" % tool,
                     "obs": repr(obs)[:200]})
     os.chdir(workdir)
     _reset_pathos()
